@@ -360,6 +360,14 @@ theorem C18_resumable_total (lib : List Nat) (r1 r2 r3 k : Nat) (f : File) (hwf 
       rw [hj] at this
       exact this
 
+/-- Any history, without a side condition: after any number of invocations `r, r+1, …`, each interrupted before
+its `kᵢ`-th step or refused earlier, and each started on whatever the previous one left, the next uninterrupted
+upgrade gives the same file and outcome as an uninterrupted upgrade of the original file. For every file. -/
+theorem C18_resumable_history_total (lib : List Nat) (r r2 r3 : Nat) (ks : List Nat) (f : File) (hwf : WF f) :
+    (upgrade lib r2 (runHistoryAny lib r f ks)).1.erase = (upgrade lib r3 f).1.erase ∧
+    (upgrade lib r2 (runHistoryAny lib r f ks)).2 = (upgrade lib r3 f).2 :=
+  history_any_resume ks r hwf
+
 /-- a property `a` with a reference text next to a property named `a.reference` -/
 def clash : File :=
   { version := [1, 1, 0], id := .absent,
@@ -389,6 +397,11 @@ theorem C18_content_counterexample : ¬ C18_content := by
 
 example : ¬ Clean clash := by decide +kernel
 example : ¬ NoNameTaken clash := by decide +kernel
+/-- `clash` exercises the refused branch of `C18_resumable_total`: interrupted before step 3 the run is refused at step 1 -/
+example : (interrupt [1, 2, 1] 1 3 clash).2 = some .valueError := by
+  unfold interrupt
+  rw [clash_collect]
+  decide +kernel
 
 /-- `a` without reference texts next to a foreign text property named `a.reference`: not `NoNameTaken`, yet the
 upgrade succeeds and `C18_no_extra_lost` applies; the reader has to know that `a.reference` was there before -/
